@@ -9,6 +9,15 @@ typedef unsigned char u8_t;
 typedef unsigned int u32_t;
 typedef unsigned long long u64_t;
 
+#if defined(WENCRY_VERIF) && defined(WENCRY_VERIF_EV_IMPL)
+// verification hooks: scheduling point before an unsynchronised shared access / event record
+#define WENCRY_VERIF_YIELD(kind, obj) WENCRY_VERIF_YIELD_IMPL(kind, obj)
+#define WENCRY_VERIF_EV(kind, obj, val) WENCRY_VERIF_EV_IMPL(kind, obj, val)
+#else
+#define WENCRY_VERIF_YIELD(kind, obj)
+#define WENCRY_VERIF_EV(kind, obj, val)
+#endif
+
 /*
 bufstate_t:缓冲区状态
 EMPTY:空缓冲区
